@@ -1,13 +1,71 @@
-(* C11 — property theorems only (closed by [exact] of lemmas from the proof files). *)
-From Common Require Import Prelude.
-From C11 Require Import Model Lists Proofs.
+(* C11 — property theorems only (closed by [exact] of lemmas from the proof files).
 
+   Vocabulary (Model.v / Spec.v): a state is a heap of buffers with reference counts (alive iff the count is
+   positive; ids are never reused), FixedArray objects in shared_ptr control blocks, wrapper slots and source
+   containers.  A wrapper designates (buffer, offset, len).  [step_new] is one operation of the REPAIRED code
+   (OwnedArray with user-defined copy/move, FixedArrayView holding its own share of the allocation), None when
+   the C++ precondition of the call fails; [reachable st] = st is the result of any history from the empty state;
+   [elems st i] = what iterating over the wrapper in slot i yields ([RVal v] a value, [RDangling] freed storage,
+   [ROob] outside the buffer, [RNull] through a null pointer). *)
+From Common Require Import Prelude.
+From C11 Require Import Model Spec Lists Proofs Inv Inv2 Inv6 InvCor InvStep ProofsReach.
+
+(* ---------------------------------------------------------------------------------- the invariant *)
+(* For every history: every live wrapper has ptr = nullptr <-> size() = 0, and every live OWNING wrapper
+   (OwnedArray, FixedArray, FixedArrayView — originals and copies alike) designates size() cells of a live
+   buffer: each index below size() reads a value (never freed storage, never outside the buffer, never null). *)
+Theorem array_inv : forall st i s a, reachable st ->
+  nth_error (slots st) i = Some s -> slot_arr st s = Some a ->
+  (a_ptr a = None <-> a_len a = 0) /\
+  (match s with SView _ => True | _ => forall j, j < a_len a -> exists v, arr_index (heap st) a j = RVal v end).
+Proof. exact array_inv_reach. Qed.
+Print Assumptions array_inv.
+
+(* the same, in terms of what is observable: size()/data()==nullptr/iteration/at() of an owning wrapper *)
+Theorem owning_wrapper_observations_valid : forall st i s o, reachable st ->
+  nth_error (slots st) i = Some s -> observe_slot st s = Some o -> o_kind o <> KView ->
+  length (o_elems o) = o_len o /\ (o_null o = true <-> o_len o = 0) /\
+  (forall j, j < o_len o -> exists v, nth_error (o_elems o) j = Some (RVal v) /\ arr_at_slot st s j = Some (ORet (RVal v))) /\
+  arr_at_slot st s (o_len o) = Some OThrow.
+Proof. exact owning_elems_valid. Qed.
+Print Assumptions owning_wrapper_observations_valid.
+
+(* the inductive invariant behind it is preserved by every operation (18 kinds), and holds initially *)
+Theorem invariant_initial : forall ns nk, WF (init ns nk).
+Proof. exact wf_init. Qed.
+Print Assumptions invariant_initial.
+
+Theorem invariant_preserved : forall st o st', WF st -> step_new st o = Some st' -> WF st'.
+Proof. exact wf_step. Qed.
+Print Assumptions invariant_preserved.
+
+(* ownership as documented: in every reachable state each buffer's reference count is exactly the number of
+   owners that hold it (source containers, OwnedArray vectors, live FixedArray objects), each FixedArray object's
+   count is the number of shared_ptrs to it (FixedArray slots, FixedArrayViews); nothing refers to an unallocated id *)
+Theorem refcounts_exact : forall st, reachable st ->
+  (forall b bu, nth_error (heap st) b = Some bu -> b_rc bu = refs_buf st b) /\
+  (forall f fo, nth_error (fobjs st) f = Some fo -> fo_rc fo = refs_fobj st f) /\
+  (forall b, length (heap st) <= b -> refs_buf st b = 0) /\
+  (forall f, length (fobjs st) <= f -> refs_fobj st f = 0).
+Proof. exact refcounts_exact_reach. Qed.
+Print Assumptions refcounts_exact.
+
+(* ... hence once every owner is gone every allocation has been released *)
+Theorem no_leak : forall st, reachable st ->
+  (forall i s, nth_error (slots st) i = Some s -> s = SEmpty \/ exists a, s = SView a) ->
+  (forall k o, nth_error (srcs st) k = Some o -> o = None) ->
+  (forall b bu, nth_error (heap st) b = Some bu -> b_rc bu = 0) /\
+  (forall f fo, nth_error (fobjs st) f = Some fo -> fo_rc fo = 0).
+Proof. exact no_leak_reach. Qed.
+Print Assumptions no_leak.
+
+(* ------------------------------------------------------------------------------ at() and iteration *)
 (* at(i) succeeds exactly for i < size() and throws otherwise; when it succeeds it is operator[] *)
 Theorem at_ok_iff : forall h a i,
   ((exists r, arr_at h a i = ORet r) <-> i < a_len a) /\
   (arr_at h a i = OThrow <-> a_len a <= i) /\
   (i < a_len a -> arr_at h a i = ORet (arr_index h a i)).
-Proof. intros h a i. split; [apply at_ok_iff_lemma | split; [apply at_throws_iff | apply at_is_index]]. Qed.
+Proof. exact at_ok_iff_all. Qed.
 Print Assumptions at_ok_iff.
 
 (* iteration begin()..end() covers exactly size() elements, the i-th being operator[](i) *)
@@ -15,9 +73,64 @@ Theorem iteration_exact : forall h a,
   length (arr_iter h a) = a_len a /\
   (forall i, i < a_len a -> nth_error (arr_iter h a) i = Some (arr_index h a i)) /\
   (forall i, a_len a <= i -> nth_error (arr_iter h a) i = None).
-Proof. intros h a. split; [apply iter_length | split; intro i; [apply iter_nth | apply iter_beyond]]. Qed.
+Proof. exact iteration_exact_all. Qed.
 Print Assumptions iteration_exact.
 
+(* ----------------------------------------------------------------------------------- ownership *)
+(* An owning array (OwnedArray or FixedArray) built from source container k holds k's elements, and whatever
+   happens to k afterwards — an element overwritten, the container replaced, the container destroyed — leaves
+   the array's contents unchanged and valid. *)
+Theorem owned_independent : forall st i kd k st1 c, reachable st -> (kd = KOwned \/ kd = KFixed) ->
+  step_new st (FromSrc i kd k) = Some st1 -> src_cells st k = Some c ->
+  elems st1 i = Some (map RVal c) /\
+  forall o st2, src_op k o -> step_new st1 o = Some st2 -> elems st2 i = Some (map RVal c).
+Proof. exact owned_independent_reach. Qed.
+Print Assumptions owned_independent.
+
+(* A copy of an owning array has the original's contents, and keeps them when the original is destroyed. *)
+Theorem owned_survives_copy : forall st i j e st1 st2, reachable st ->
+  (match slot_at st j with SOwned _ _ | SFixed _ => True | _ => False end) ->
+  elems st j = Some e -> step_new st (CopyCtor i j) = Some st1 -> step_new st1 (Destroy j) = Some st2 ->
+  elems st1 i = Some e /\ elems st2 i = Some e.
+Proof. exact owned_survives_copy_reach. Qed.
+Print Assumptions owned_survives_copy.
+
+(* the same for an OwnedArray move-constructed from the original *)
+Theorem owned_survives_move : forall st i j a vb e st1 st2, reachable st ->
+  slot_at st j = SOwned a vb ->
+  elems st j = Some e -> step_new st (MoveCtor i j) = Some st1 -> step_new st1 (Destroy j) = Some st2 ->
+  elems st1 i = Some e /\ elems st2 i = Some e.
+Proof. exact owned_survives_move_reach. Qed.
+Print Assumptions owned_survives_move.
+
+(* A FixedArrayView (off, n) onto a FixedArray shows elements off..off+n of it, and keeps showing them when the
+   viewed FixedArray is destroyed or assigned to: the view keeps the allocation alive. *)
+Theorem owned_survives_fview : forall st i j f off n st1 e o st2, reachable st ->
+  slot_at st j = SFixed f -> elems st j = Some e -> step_new st (MkFView i j off n) = Some st1 ->
+  fixed_kill j o -> step_new st1 o = Some st2 ->
+  elems st1 i = Some (firstn n (skipn off e)) /\ elems st2 i = Some (firstn n (skipn off e)).
+Proof. exact owned_survives_fview_reach. Qed.
+Print Assumptions owned_survives_fview.
+
+(* A non-owning ArrayView aliases its source exactly: after the source is written, the view reads what the
+   source holds now. *)
+Theorem view_aliases : forall st i k j v st1 st2, reachable st ->
+  step_new st (FromSrc i KView k) = Some st1 -> step_new st1 (SrcWrite k j v) = Some st2 ->
+  exists c2, src_cells st2 k = Some c2 /\ elems st2 i = Some (map RVal c2) /\ nth_error c2 j = Some v.
+Proof. exact view_aliases_reach. Qed.
+Print Assumptions view_aliases.
+
+(* OwnedArray::resize(n, v): afterwards the base pointer designates the vector's CURRENT allocation (also after a
+   growth past the capacity, which moves the elements to a new buffer and frees the old one), size() = n, the old
+   elements are kept up to n and the new ones are v. *)
+Theorem resize_tracks : forall st i a vb n v st1, reachable st ->
+  slot_at st i = SOwned a vb -> step_new st (Resize i n v) = Some st1 ->
+  exists a' vb', slot_at st1 i = SOwned a' vb' /\ a' = vec_arr st1 vb' /\ a_len a' = n /\
+    arr_iter (heap st1) a' = map RVal (firstn n (vec_cells st vb) ++ repeat v (n - length (vec_cells st vb))).
+Proof. exact resize_tracks_reach. Qed.
+Print Assumptions resize_tracks.
+
+(* ------------------------------------------------------------------------------------- DataView *)
 (* DataView<T>[i] reads exactly the sizeof(T) bytes at byte offset i*stride from the pointer *)
 Theorem dataview_offset : forall h b off stride sz i bu,
   nth_error h b = Some bu -> b_alive bu = true ->
@@ -27,32 +140,34 @@ Theorem dataview_offset : forall h b off stride sz i bu,
 Proof. exact dv_index_live. Qed.
 Print Assumptions dataview_offset.
 
-Example dataview_example :
-  dv_index [{| b_cells := [1;2;3;4;5;6;7;8;9;10;11;12]%N; b_cap := 12; b_rc := 1 |}]
-           {| d_ptr := Some (0, 2); d_stride := 3 |} 2 3
-  = [RVal 12%N; ROob].
-Proof. vm_compute. reflexivity. Qed.
-
-(* ------------------------------------------------------- the code before the repairs *)
+(* ------------------------------------------------------- the code before the repairs (findings) *)
 (* implicit OwnedArray copy: A := OwnedArray(src 0); B := copy of A; destroy A; B's elements dangle *)
 Theorem ownedarray_copy_refuted :
   exists ops i o, nth_error (observe (run_old_owned (init 4 3) ops)) i = Some (Some o) /\
                   o_kind o = KOwned /\ In RDangling (o_elems o).
-Proof.
-  exists [SrcSet 0 [1;2;3]%N; FromSrc 0 KOwned 0; CopyCtor 1 0; Destroy 0], 1.
-  eexists. vm_compute. split; [reflexivity | split; [reflexivity | left; reflexivity]].
-Qed.
+Proof. exact ownedarray_copy_refuted_witness. Qed.
 
 (* FixedArrayView holding the caller's FixedArray object: assigning to that object frees the viewed data *)
 Theorem fixedarrayview_reassign_refuted :
   exists ops i o, nth_error (observe (run_old_fview (init 4 3) ops)) i = Some (Some o) /\
                   o_kind o = KFView /\ In RDangling (o_elems o).
-Proof.
-  exists [SrcSet 0 [1;2;3]%N; SrcSet 1 [7;8]%N; FromSrc 0 KFixed 0; MkFView 1 0 1 2; AssignSrc 0 1], 1.
-  eexists. vm_compute. split; [reflexivity | split; [reflexivity | left; reflexivity]].
-Qed.
+Proof. exact fixedarrayview_reassign_refuted_witness. Qed.
 
-(* the same histories on the repaired code read the original contents *)
+(* ------------------------------------------------------------------------- non-vacuity examples *)
+Definition ex_hist : list op :=
+  [SrcSet 0 [1;2;3]%N; SrcSet 1 [7;8]%N; FromSrc 0 KOwned 0; FromSrc 1 KFixed 0].
+Definition ex_st := run_new (init 4 3) ex_hist.
+
+Example ex_reachable : reachable ex_st.
+Proof. exists 4, 3, ex_hist. reflexivity. Qed.
+
+(* array_inv / owning_wrapper_observations_valid: an owning wrapper with 3 elements exists in a reachable state *)
+Example array_inv_nonvacuous :
+  exists s o, nth_error (slots ex_st) 1 = Some s /\ observe_slot ex_st s = Some o /\ o_kind o = KFixed /\
+              o_len o = 3 /\ o_elems o = [RVal 1; RVal 2; RVal 3]%N.
+Proof. vm_compute. eexists. eexists. repeat split; reflexivity. Qed.
+
+(* the same histories as in the two findings, on the repaired code, read the original contents *)
 Example ownedarray_copy_repaired :
   map (option_map o_elems) (observe (run_new (init 4 3) [SrcSet 0 [1;2;3]%N; FromSrc 0 KOwned 0; CopyCtor 1 0; Destroy 0]))
   = [None; Some [RVal 1; RVal 2; RVal 3]%N; None; None].
@@ -63,3 +178,52 @@ Example fixedarrayview_reassign_repaired :
       (observe (run_new (init 4 3) [SrcSet 0 [1;2;3]%N; SrcSet 1 [7;8]%N; FromSrc 0 KFixed 0; MkFView 1 0 1 2; AssignSrc 0 1]))
   = [Some [RVal 7; RVal 8]%N; Some [RVal 2; RVal 3]%N; None; None].
 Proof. vm_compute. reflexivity. Qed.
+
+(* owned_independent: premises satisfiable, and all three kinds of source operation succeed afterwards *)
+Example owned_independent_nonvacuous :
+  exists st1, step_new ex_st (FromSrc 2 KOwned 0) = Some st1 /\ src_cells ex_st 0 = Some [1;2;3]%N /\
+    (exists st2, step_new st1 (SrcWrite 0 1 9%N) = Some st2 /\ elems st2 2 = Some [RVal 1; RVal 2; RVal 3]%N) /\
+    (exists st2, step_new st1 (SrcSet 0 [5]%N) = Some st2 /\ elems st2 2 = Some [RVal 1; RVal 2; RVal 3]%N) /\
+    (exists st2, step_new st1 (SrcKill 0) = Some st2 /\ elems st2 2 = Some [RVal 1; RVal 2; RVal 3]%N).
+Proof. vm_compute. eexists. repeat split; eexists; split; reflexivity. Qed.
+
+Example owned_survives_copy_nonvacuous :
+  exists st1 st2, step_new ex_st (CopyCtor 2 1) = Some st1 /\ step_new st1 (Destroy 1) = Some st2 /\
+                  elems ex_st 1 = Some [RVal 1; RVal 2; RVal 3]%N /\ elems st2 2 = Some [RVal 1; RVal 2; RVal 3]%N.
+Proof. vm_compute. eexists. eexists. repeat split; reflexivity. Qed.
+
+Example owned_survives_move_nonvacuous :
+  exists st1 st2, step_new ex_st (MoveCtor 2 0) = Some st1 /\ step_new st1 (Destroy 0) = Some st2 /\
+                  elems st1 0 = Some [] /\ elems st2 2 = Some [RVal 1; RVal 2; RVal 3]%N.
+Proof. vm_compute. eexists. eexists. repeat split; reflexivity. Qed.
+
+Example owned_survives_fview_nonvacuous :
+  exists st1 st2 st2', step_new ex_st (MkFView 2 1 1 2) = Some st1 /\
+     step_new st1 (AssignSrc 1 1) = Some st2 /\ elems st2 1 = Some [RVal 7; RVal 8]%N /\ elems st2 2 = Some [RVal 2; RVal 3]%N /\
+     step_new st1 (Destroy 1) = Some st2' /\ elems st2' 2 = Some [RVal 2; RVal 3]%N.
+Proof. vm_compute. eexists. eexists. eexists. repeat split; reflexivity. Qed.
+
+Example view_aliases_nonvacuous :
+  exists st1 st2, step_new ex_st (FromSrc 2 KView 0) = Some st1 /\ step_new st1 (SrcWrite 0 1 9%N) = Some st2 /\
+                  elems st2 2 = Some [RVal 1; RVal 9; RVal 3]%N.
+Proof. vm_compute. eexists. eexists. repeat split; reflexivity. Qed.
+
+(* resize past the capacity (3 -> 9): new allocation (buffer 4, the old buffer 2 is freed), contents kept + filled *)
+Example resize_tracks_nonvacuous :
+  exists st1, step_new ex_st (Resize 0 9 4%N) = Some st1 /\
+    slot_at st1 0 = SOwned {| a_ptr := Some (4, 0); a_len := 9 |} (Some 4) /\
+    option_map b_rc (nth_error (heap st1) 2) = Some 0 /\
+    elems st1 0 = Some (map RVal [1;2;3;4;4;4;4;4;4]%N).
+Proof. vm_compute. eexists. repeat split; reflexivity. Qed.
+
+Example dataview_example :
+  dv_index [{| b_cells := [1;2;3;4;5;6;7;8;9;10;11;12]%N; b_cap := 12; b_rc := 1 |}]
+           {| d_ptr := Some (0, 2); d_stride := 3 |} 2 3
+  = [RVal 12%N; ROob].
+Proof. vm_compute. reflexivity. Qed.
+
+Example at_example :
+  let h := [{| b_cells := [5;6]%N; b_cap := 2; b_rc := 1 |}] in
+  let a := {| a_ptr := Some (0, 0); a_len := 2 |} in
+  arr_at h a 1 = ORet (RVal 6%N) /\ arr_at h a 2 = OThrow /\ arr_iter h a = [RVal 5; RVal 6]%N.
+Proof. vm_compute. repeat split; reflexivity. Qed.
